@@ -462,6 +462,211 @@ def closure_body_is_projection(toks, lo, hi):
     return True
 
 
+
+# --------------------------------------------------------------------------------------
+# vocabulary of library constructs (for the runner's "unfamiliar construct" test)
+# --------------------------------------------------------------------------------------
+_OPS = ('==', '!=', '<', '<=', '>', '>=', '+', '-', '*', '/', '%', '+=', '-=', '*=', '/=', '%=')
+
+
+def _tok_class(t):
+    if t is None:
+        return '-'
+    if t.kind in ('str', 'rawstr'):
+        return 'str'
+    if t.kind == 'num':
+        return 'num'
+    if t.kind == 'char':
+        return 'chr'
+    if t.kind == 'ident':
+        return 'id'
+    if t.text in ('&', '&&'):
+        return '&'
+    if t.text in ('|', '||'):
+        return 'closure'
+    if t.text in ('(', '[', '{', '*', '!', '-'):
+        return t.text
+    return 'o'
+
+
+def call_shapes(text):
+    """library-level constructs used by a piece of code, type-blind: method / associated-function / function calls with the
+    leading token class of every argument, macros, two-segment paths used as values, binary operators with the classes of
+    the adjacent tokens. Used only to tell whether changed code speaks a vocabulary the audited tree did not use."""
+    toks = [t for t in lex(text) if t.kind in CODE_KINDS]
+    n = len(toks)
+    out = set()
+    for i, t in enumerate(toks):
+        if t.kind == 'ident' and i + 1 < n:
+            nx = toks[i + 1]
+            if nx.text == '!' and i + 2 < n and toks[i + 2].text in ('(', '[', '{'):
+                out.add('macro %s!' % t.text)
+                continue
+            if nx.text == '(' or (nx.text == '::' and i + 2 < n and toks[i + 2].text == '<'):
+                # find the opening paren (skip turbofish)
+                j = i + 1
+                if nx.text == '::':
+                    d = 0
+                    j = i + 2
+                    while j < n:
+                        if toks[j].text == '<':
+                            d += 1
+                        elif toks[j].text == '>':
+                            d -= 1
+                        elif toks[j].text == '>>':
+                            d -= 2
+                        if d <= 0:
+                            break
+                        j += 1
+                    j += 1
+                    if j >= n or toks[j].text != '(':
+                        continue
+                pv = toks[i - 1].text if i > 0 else ''
+                if pv == 'fn':
+                    continue
+                if pv == '.':
+                    head = '.%s' % t.text
+                elif pv == '::' and i >= 2:
+                    head = '%s::%s' % (toks[i - 2].text, t.text)
+                else:
+                    head = t.text
+                # arguments
+                depth = 0
+                args = []
+                expect = True
+                k = j + 1
+                while k < n:
+                    x = toks[k].text
+                    if x in (')', ']', '}') and depth == 0:
+                        break
+                    if expect:
+                        args.append(_tok_class(toks[k]))
+                        expect = False
+                    if x in ('(', '[', '{'):
+                        depth += 1
+                    elif x in (')', ']', '}'):
+                        depth -= 1
+                    elif x == ',' and depth == 0:
+                        expect = True
+                    k += 1
+                out.add('call %s(%s)' % (head, ','.join(args)))
+                continue
+            if nx.text == '::' and i + 2 < n and toks[i + 2].kind == 'ident' and t.text[:1].isupper():
+                after = toks[i + 3].text if i + 3 < n else ''
+                if after not in ('(', '::', '{', '<'):
+                    out.add('path %s::%s' % (t.text, toks[i + 2].text))
+        if t.kind == 'punct' and t.text in _OPS and 0 < i < n - 1:
+            l, r = toks[i - 1], toks[i + 1]
+            if t.text in ('<', '>') and (l.kind == 'ident' and l.text[:1].isupper() or r.kind == 'ident' and r.text[:1].isupper()
+                                         or l.text == '::' or r.text in ('>', ',', '(')):
+                continue          # generics
+            if t.text in ('-', '*') and l.text in ('(', ',', '=', 'return', '{', ';', '=>'):
+                continue          # unary
+            out.add('op %s %s %s' % (_tok_class(l) if l.text != ')' else ')', t.text, _tok_class(r)))
+    return out
+
+
+
+def shim_vocabulary(shim_text):
+    """what the shim declares with a contract: method names (type-blind), (Type, function) pairs and (Type, CONST) pairs"""
+    toks = [t for t in lex(shim_text) if t.kind in CODE_KINDS]
+    methods, assoc = set(), set()
+    # assume_specification [ Type::name ] / [ <T as Trait>::name ] / [ Type::<..>::name ]
+    for m in re.finditer(r'assume_specification(?:<[^\[]*>)?\s*\[\s*(.+?)\s*\]\s*\(', shim_text):
+        path = re.sub(r'<[^<>]*>', '', re.sub(r'<[^<>]*>', '', m.group(1)))
+        segs = [x for x in re.findall(r'[A-Za-z_]\w*', path)]
+        if segs:
+            methods.add(segs[-1])
+            if len(segs) >= 2:
+                assoc.add((segs[-2], segs[-1]))
+    n = len(toks)
+    i = 0
+    while i < n:
+        t = toks[i]
+        if t.kind == 'ident' and t.text == 'impl':
+            j = i + 1
+            hdr = []
+            while j < n and toks[j].text != '{':
+                hdr.append(toks[j].text)
+                j += 1
+            if j >= n:
+                break
+            # the implementing type: after `for` if present, else first identifier after generics
+            if 'for' in hdr:
+                tail = hdr[hdr.index('for') + 1:]
+            else:
+                tail = hdr
+                if tail and tail[0] == '<':
+                    d = 0
+                    for q, x in enumerate(tail):
+                        if x == '<':
+                            d += 1
+                        elif x == '>':
+                            d -= 1
+                            if d == 0:
+                                tail = tail[q + 1:]
+                                break
+            ty = next((x for x in tail if re.fullmatch(r'[A-Za-z_]\w*', x) and x not in ('dyn', 'mut')), None)
+            # body
+            depth = 0
+            k = j
+            while k < n:
+                if toks[k].text == '{':
+                    depth += 1
+                elif toks[k].text == '}':
+                    depth -= 1
+                    if depth == 0:
+                        break
+                elif depth == 1 and toks[k].kind == 'ident' and toks[k].text == 'fn' and k + 1 < n:
+                    name = toks[k + 1].text
+                    # self parameter?
+                    q = k + 2
+                    while q < n and toks[q].text != '(':
+                        q += 1
+                    first = [toks[q + 1].text, toks[q + 2].text, toks[q + 3].text] if q + 3 < n else []
+                    if 'self' in first:
+                        methods.add(name)
+                    if ty:
+                        assoc.add((ty, name))
+                elif depth == 1 and toks[k].kind == 'ident' and toks[k].text == 'const' and k + 1 < n and ty:
+                    assoc.add((ty, toks[k + 1].text))
+                k += 1
+            i = k + 1
+            continue
+        if t.kind == 'ident' and t.text == 'fn' and i + 1 < n:
+            assoc.add((None, toks[i + 1].text))
+        i += 1
+    return methods, assoc
+
+
+def familiar_in_shim(shape, methods, assoc):
+    m = re.match(r'call \.(\w+)\(', shape)
+    if m:
+        return m.group(1) in methods
+    m = re.match(r'call (\w+)::(\w+)\(', shape)
+    if m:
+        return (m.group(1), m.group(2)) in assoc or (m.group(1) == 'Map' and ('CwMap', m.group(2)) in assoc)
+    m = re.match(r'call (\w+)\(', shape)
+    if m:
+        return (None, m.group(1)) in assoc
+    m = re.match(r'path (\w+)::(\w+)$', shape)
+    if m:
+        return (m.group(1), m.group(2)) in assoc
+    return False
+
+
+def opaque_format_uses(text):
+    """format! invocations whose result is opaque to the verifier and is not a Debug rendering of one value (those feed
+    only debug attributes / error fields): `format!("{}-{}", a, b)` and the like"""
+    out = []
+    for m in re.finditer(r'\bformat!\s*\(\s*("(?:[^"\\]|\\.)*")', text):
+        lit = m.group(1)
+        if re.fullmatch(r'"\{\w*:#?\?\}"', lit):
+            continue
+        out.append(lit)
+    return out
+
+
 def unannotated_value_closures(text):
     """(method, snippet) of every un-annotated closure literal whose result the verifier cannot see: argument-position
     closures without `-> (r: T) ensures` that are not the error-building argument of map_err / ok_or_else"""
@@ -591,6 +796,39 @@ def rewrite_tokens(src, modpath, report):
         if t.kind not in CODE_KINDS:
             k += 1
             continue
+        # R19  format!("{}", E) / format!("{name}")  ->  (E).to_string(): the definition of Display formatting with an
+        #      empty format spec; every other format! stays opaque (D-d)
+        if t.kind == 'ident' and t.text == 'format' and toks[next_code(toks, k)].text == '!':
+            op = next_code(toks, next_code(toks, k))
+            if toks[op].text == '(':
+                cl = match_close(toks, op)
+                a1 = next_code(toks, op)
+                if toks[a1].kind == 'str':
+                    lit = toks[a1].text
+                    nx = next_code(toks, a1)
+                    if lit == '"{}"' and toks[nx].text == ',':
+                        arg = src[toks[nx].end:toks[cl].start].strip().rstrip(',').strip()
+                        depth0_comma = False
+                        d = 0
+                        for q in range(nx + 1, cl):
+                            x = toks[q].text
+                            if x in ('(', '[', '{'):
+                                d += 1
+                            elif x in (')', ']', '}'):
+                                d -= 1
+                            elif x == ',' and d == 0 and next_code(toks, q) < cl:
+                                depth0_comma = True
+                        if not depth0_comma and arg:
+                            edits.append((t.start, toks[cl].end, '(%s).to_string()' % arg))
+                            bump('R19')
+                            k = cl + 1
+                            continue
+                    m19 = re.fullmatch(r'"\{([A-Za-z_]\w*)\}"', lit)
+                    if m19 and nx == cl:
+                        edits.append((t.start, toks[cl].end, '(%s).to_string()' % m19.group(1)))
+                        bump('R19')
+                        k = cl + 1
+                        continue
         # R1  |_|  ->  |_e|
         j = seq_match(toks, k, ['|', '_', '|'])
         if j > 0:
@@ -699,6 +937,16 @@ def rewrite_tokens(src, modpath, report):
                     inner = re.sub(r'\s+', '', src[toks[op].end:toks[cl].start])
                     mm = re.fullmatch(r'\|(\w+)\|!(\w+)\.contains\(\1\)', inner)
                     if not mm:
+                        # R6b  E.iter().any(|x| x == &Y) / x.eq(&Y) / *x == Y   ->  E.contains(&Y)   (definition of
+                        #      `contains` for slices of PartialEq elements); Y must not mention x
+                        raw_inner = src[toks[op].end:toks[cl].start].strip()
+                        m2 = re.fullmatch(r'\|\s*(\w+)\s*\|\s*(?:\1\s*==\s*&\s*(.+)|\1\s*\.\s*eq\s*\(\s*&\s*(.+)\)|\*\s*\1\s*==\s*(.+))', raw_inner, re.S)
+                        y = next((g for g in (m2.group(2), m2.group(3), m2.group(4)) if g), None) if m2 else None
+                        if y and not re.search(r'\b%s\b' % re.escape(m2.group(1)), y) and not re.search(r'(\|\||&&|==|!=|[<>?;])', y):
+                            edits.append((toks[k].start, toks[cl].end, '.contains(&%s)' % y.strip()))
+                            bump('R6')
+                            k = cl + 1
+                            continue
                         raise GenError('R6: any(..) closure shape changed in %s: %s' % (modpath, inner))
                     edits.append((toks[rs].start, toks[cl].end,
                                   'any_missing(&%s, &%s)' % (recv.strip(), mm.group(2))))
@@ -1435,6 +1683,10 @@ def weave(src, modpath, contracts, mode, report, used, vacuity_props=None):
         finfo = {'qname': f.qname, 'params': f.params,
                  'body_sha256': hashlib.sha256(body_text.encode()).hexdigest(),
                  'contracted': c is not None}
+        try:
+            finfo['shapes'] = sorted(call_shapes(body_text))
+        except Exception:  # noqa
+            finfo['shapes'] = ['<unreadable>']
         report['functions'].append(finfo)
         if c is None:
             edits.append((toks[f.kw].start, toks[f.kw].start, '/*@F %s*/ ' % f.qname))
@@ -1769,6 +2021,7 @@ use crate::shim::{cosmwasm_std, provwasm_std, rust_decimal, cw_storage_plus, sem
 #[allow(unused_imports)] use vstd::std_specs::ops::*;
 #[allow(unused_imports)] use vstd::std_specs::convert::*;
 #[allow(unused_imports)] use core::cmp::Ordering as CoreOrdering;
+broadcast use crate::spec::enc_axioms;
 '''
 
 NO_EQ_TYPES = {'ContractError'}
@@ -2004,7 +2257,7 @@ def generate(mode, out_path, vacuity_props=None, force_stub=()):
         spec = re.sub(r'//@probe-begin.*?//@probe-end', '', spec, flags=re.S)
     strict_def = 'pub open spec fn strict() -> bool { %s }\n' % ('true' if mode == 'strict' else 'false')
     out = (HEAD + 'pub mod shim {\n' + strict_def + shim + '\n}\n'
-           + 'pub mod spec {\n' + MOD_PRELUDE.replace('#[allow(unused_imports)] use crate::spec::*;\n', '')
+           + 'pub mod spec {\n' + MOD_PRELUDE.replace('#[allow(unused_imports)] use crate::spec::*;\n', '').replace('broadcast use crate::spec::enc_axioms;\n', '')
            + spec + '\n}\n'
            + '\n'.join(emit(m) for m in tops) + '\n} // verus!\nfn main() {}\n')
     os.makedirs(os.path.dirname(out_path), exist_ok=True)
@@ -2023,6 +2276,16 @@ def generate(mode, out_path, vacuity_props=None, force_stub=()):
         report['wire_premise_changed'] = (['+ ' + x for x in cur if x not in base] + ['- ' + x for x in base if x not in cur])
     else:
         report['wire_premise_changed'] = ['no baseline file contracts/wire_baseline.json']
+    # vocabulary premise: constructs a function uses that no function of the audited tree used
+    ap = os.path.join(VERIF, 'contracts', 'api_baseline.json')
+    known = set(json.load(open(ap))) if os.path.exists(ap) else None
+    sm, sa = shim_vocabulary(shim)
+    for fi in report['functions']:
+        if known is None:
+            fi['novel_constructs'] = ['<no api baseline>']
+        else:
+            # neither used by the audited tree nor declared (with a contract) by the shim
+            fi['novel_constructs'] = sorted(x for x in set(fi.get('shapes', [])) - known if not familiar_in_shim(x, sm, sa))
     # line map
     linemap = build_linemap(out)
     report['uncontracted'] = [f['qname'] for f in report['functions'] if not f['contracted']]
